@@ -80,7 +80,7 @@ func within(d time.Duration, f func()) bool {
 	select {
 	case <-done:
 		return true
-	case <-time.After(d):
+	case <-time.After(wd(d)):
 		return false
 	}
 }
@@ -251,7 +251,7 @@ func cfaultCase(cs cfCase) *CaseSpec {
 			awaitLimit = 300 * time.Millisecond // nothing to wait for: only liveness is judged
 		}
 		within(awaitLimit+4*time.Second, func() {
-			actx, acancel := context.WithTimeout(context.Background(), awaitLimit)
+			actx, acancel := context.WithTimeout(context.Background(), wd(awaitLimit))
 			defer acancel()
 			err := c.AwaitConverged(actx)
 			var ce *client.ClientErr
@@ -270,7 +270,7 @@ func cfaultCase(cs cfCase) *CaseSpec {
 		select {
 		case <-c.Done():
 			done = true
-		case <-time.After(time.Second):
+		case <-time.After(wd(time.Second)):
 		}
 		closeRes, fresh, exch := "-", "-", "-"
 		leak := 0
@@ -327,7 +327,7 @@ func cfaultCase(cs cfCase) *CaseSpec {
 					} else {
 						var aerr error
 						if !within(4*time.Second, func() {
-							actx, acancel := context.WithTimeout(context.Background(), 2*time.Second)
+							actx, acancel := context.WithTimeout(context.Background(), wd(2*time.Second))
 							defer acancel()
 							aerr = c.AwaitConverged(actx)
 						}) {
